@@ -802,3 +802,183 @@ Qed.
 
 Theorem clientHello_accepts_iff : forall data, accepts (clientHello_unmarshal data) <-> ch_shape data.
 Proof. intros. split; [apply clientHello_accepts_shape|apply clientHello_shape_accepts]. Qed.
+
+Lemma sct_loop_accepts : forall fuel d acc, length d < fuel -> (accepts (sct_loop fuel d acc) <-> sct_list_ok d).
+Proof.
+  induction fuel as [|fuel IH]; intros d acc Hf; [lia|].
+  destruct d as [|b0 d]; [split; intros; [constructor|apply accepts_ok]|].
+  destruct d as [|b1 d]; [split; intros H; [cbn in H; destruct H; discriminate|inversion H]|].
+  cbn [sct_loop]. cbn [length]. change (Nat.ltb (S (S (length d))) 2) with false. cbn iota.
+  cbn [byte_at nth_error obind slice_from length Nat.leb skipn].
+  destruct (Nat.eqb_spec (u16n b0 b1) 0) as [H0|H0]; cbn [orb].
+  - split; intros H; [destruct H; discriminate|]. inversion H; subst. contradiction.
+  - destruct (Nat.ltb_spec (length d) (u16n b0 b1)) as [Hl|Hl].
+    + split; intros H; [destruct H; discriminate|]. inversion H; subst. rewrite app_length in Hl. lia.
+    + rewrite slice_to_le by lia. cbn [obind]. rewrite slice_from_le by lia. cbn [obind].
+      destruct (split_at (u16n b0 b1) d Hl) as [Hd Hn].
+      rewrite IH by (rewrite skipn_length; cbn in Hf; lia).
+      split; intros H.
+      * rewrite Hd. constructor; assumption.
+      * inversion H; subst.
+        match goal with Hx : length s = _ |- _ => rewrite <- Hx end. rewrite skipn_app_exact. assumption.
+Qed.
+
+Lemma sh_extension_accepts : forall m ext body rest,
+  accepts (sh_extension m ext (length body) (body ++ rest)) <-> sh_ext_body_ok ext body.
+Proof.
+  intros m ext body rest. unfold sh_extension, sh_ext_body_ok.
+  repeat match goal with |- context [if N.eqb ext ?c then _ else _] => destruct (N.eqb ext c) end.
+  - (* NPN *)
+    rewrite slice_to_app. cbn [obind]. rewrite accepts_bind. split.
+    + intros [a [Ha _]]. apply (alpn_loop_accepts (S (length body)) body (g_protos m)); [lia|]. eexists; eassumption.
+    + intros Hs. apply (alpn_loop_accepts (S (length body)) body (g_protos m)) in Hs; [|lia]. destruct Hs as [a Ha]. exists a. split; [assumption|apply accepts_ok].
+  - destruct body; cbn [length]; [change (Nat.ltb 0 0) with false|change (Nat.ltb 0 (S (length body))) with true]; cbn iota.
+    + split; intros; [reflexivity|apply accepts_ok].
+    + split; intros H; [destruct H; discriminate|discriminate].
+  - destruct body; cbn [length]; [change (Nat.ltb 0 0) with false|change (Nat.ltb 0 (S (length body))) with true]; cbn iota.
+    + split; intros; [reflexivity|apply accepts_ok].
+    + split; intros H; [destruct H; discriminate|discriminate].
+  - (* renegotiation_info *)
+    destruct body as [|b0 lst]; try (split; intros H; [cbn in H; destruct H; discriminate|contradiction]).
+    change (Nat.eqb (length (b0 :: lst)) 0) with false. cbn iota.
+    rewrite slice_to_app. cbn [obind byte_at nth_error slice_from length Nat.leb skipn].
+    destruct (Nat.eqb_spec (N.to_nat b0) (length lst)) as [E|E]; cbn [negb].
+    + split; intros; [lia|apply accepts_ok].
+    + split; intros H; [destruct H; discriminate|lia].
+  - (* ALPN *)
+    rewrite slice_to_app. cbn [obind].
+    destruct body as [|b0 [|b1 [|l proto]]]; try (split; intros H; [cbn in H; destruct H; discriminate|contradiction]).
+    cbn [length]. change (Nat.ltb (S (S (S (length proto)))) 3) with false. cbn iota.
+    cbn [byte_at nth_error obind]. replace (S (S (S (length proto))) - 2) with (S (length proto)) by lia.
+    destruct (Nat.eqb_spec (u16n b0 b1) (S (length proto))) as [E1|E1]; cbn [negb].
+    2:{ split; intros H; [destruct H; discriminate|]. destruct H. contradiction. }
+    cbn [slice_from length Nat.leb skipn obind byte_at nth_error]. replace (S (length proto) - 1) with (length proto) by lia.
+    destruct (Nat.eqb_spec (N.to_nat l) (length proto)) as [E2|E2]; cbn [negb].
+    2:{ split; intros H; [destruct H; discriminate|]. destruct H as [_ [H _]]. contradiction. }
+    destruct proto as [|p0 proto]; cbn [length Nat.eqb].
+    + split; intros H; [destruct H; discriminate|]. destruct H as [_ [_ H]]. contradiction.
+    + split; intros; [repeat split; [assumption|assumption|discriminate]|apply accepts_ok].
+  - (* SCT *)
+    rewrite slice_to_app. cbn [obind].
+    destruct body as [|b0 [|b1 lst]]; try (split; intros H; [cbn in H; destruct H; discriminate|contradiction]).
+    cbn [length]. change (Nat.ltb (S (S (length lst))) 2) with false. cbn iota.
+    cbn [byte_at nth_error obind slice_from length Nat.leb skipn].
+    destruct (Nat.eqb_spec (length lst) (u16n b0 b1)) as [E1|E1]; cbn [negb orb].
+    2:{ split; intros H; [destruct H; discriminate|]. destruct H. contradiction. }
+    destruct (Nat.eqb_spec (u16n b0 b1) 0) as [E2|E2].
+    { split; intros H; [destruct H; discriminate|]. destruct H as [_ [H _]]. destruct lst; [contradiction|cbn in E1; lia]. }
+    rewrite accepts_bind. split.
+    + intros [a [Ha _]]. split; [assumption|]. split; [intros ->; cbn in E1; lia|].
+      apply (sct_loop_accepts (S (length lst)) lst []); [lia|]. eexists; eassumption.
+    + intros [_ [_ Hs]]. apply (sct_loop_accepts (S (length lst)) lst []) in Hs; [|lia]. destruct Hs as [a Ha]. exists a. split; [assumption|apply accepts_ok].
+  - split; intros; [exact I|apply accepts_ok].
+Qed.
+
+Theorem sh_ext_loop_accepts : forall fuel data m, length data < fuel ->
+  (accepts (sh_ext_loop fuel data m) <-> sh_ext_block_ok data).
+Proof.
+  induction fuel as [|fuel IH]; intros data m Hf; [lia|].
+  destruct data as [|e0 data]; [split; intros; [constructor|apply accepts_ok]|].
+  destruct data as [|e1 data]; [split; intros H; [cbn in H; destruct H; discriminate|inversion H]|].
+  destruct data as [|l0 data]; [split; intros H; [cbn in H; destruct H; discriminate|inversion H]|].
+  destruct data as [|l1 data]; [split; intros H; [cbn in H; destruct H; discriminate|inversion H]|].
+  cbn [sh_ext_loop]. cbn [length]. change (Nat.ltb (S (S (S (S (length data))))) 4) with false. cbn iota.
+  cbn [byte_at nth_error obind slice_from length Nat.leb skipn].
+  destruct (Nat.ltb_spec (length data) (u16n l0 l1)) as [Hl|Hl].
+  - split; intros H; [destruct H; discriminate|]. inversion H; subst. rewrite app_length in Hl. lia.
+  - destruct (split_at (u16n l0 l1) data Hl) as [Hd Hn].
+    set (body := firstn (u16n l0 l1) data) in *. set (rest := skipn (u16n l0 l1) data) in *.
+    rewrite accepts_bind.
+    assert (Hce : forall mm, sh_extension mm (u16 e0 e1) (u16n l0 l1) data = sh_extension mm (u16 e0 e1) (length body) (body ++ rest)).
+    { intros. rewrite Hn, <- Hd. reflexivity. }
+    split.
+    + intros [m' [Hm' Hrest]]. rewrite Hd. constructor; [assumption| |].
+      * apply (sh_extension_accepts m (u16 e0 e1) body rest). rewrite <- Hce. eexists; eassumption.
+      * rewrite slice_from_le in Hrest by lia. cbn [obind] in Hrest. fold rest in Hrest.
+        apply IH in Hrest; [assumption|]. unfold rest. rewrite skipn_length. cbn [length] in Hf. lia.
+    + intros H. assert (Hfd : length data < fuel) by (cbn [length] in Hf; lia). clear Hf.
+      remember (e0 :: e1 :: l0 :: l1 :: data) as full eqn:Efull.
+      destruct H as [|e0' e1' l0' l1' body' rest' Hlen Hbody Hrest']; [discriminate|].
+      injection Efull as -> -> -> -> Heq.
+      assert (body' = body /\ rest' = rest) as [-> ->].
+      { unfold body, rest. rewrite <- Heq, <- Hlen. rewrite firstn_app_exact, skipn_app_exact. split; reflexivity. }
+      apply (sh_extension_accepts m (u16 e0 e1) body rest) in Hbody. destruct Hbody as [m' Hm'].
+      exists m'. split; [rewrite Hce; assumption|].
+      rewrite slice_from_le by lia. cbn [obind]. fold rest.
+      apply IH; [|assumption]. unfold rest. rewrite skipn_length. lia.
+Qed.
+
+Theorem serverHello_accepts_shape : forall data, accepts (serverHello_unmarshal data) -> sh_shape data.
+Proof.
+  intros data H. unfold serverHello_unmarshal in H.
+  apply accepts_if_false in H. destruct H as [E0 H]. apply Nat.ltb_ge in E0.
+  rewrite (byte_at_lt data 4) in H by lia. rewrite (byte_at_lt data 5) in H by lia. cbn [obind] in H.
+  rewrite slice_ok in H by lia. cbn [obind] in H. rewrite (byte_at_lt data 38) in H by lia. cbn [obind] in H.
+  set (sidl := N.to_nat (nth 38 data 0%N)) in *.
+  apply accepts_if_false in H. destruct H as [E H].
+  apply orb_false_iff in E. destruct E as [E1 E2]. apply Nat.ltb_ge in E1. apply Nat.ltb_ge in E2.
+  rewrite slice_ok in H by lia. cbn [obind] in H. rewrite slice_from_le in H by lia. cbn [obind] in H.
+  set (d1 := skipn (39 + sidl) data) in *. assert (Hd1 : length d1 = length data - (39 + sidl)) by apply skipn_length.
+  apply accepts_if_false in H. destruct H as [E H]. apply Nat.ltb_ge in E.
+  rewrite (byte_at_lt d1 0) in H by lia. rewrite (byte_at_lt d1 1) in H by lia. rewrite (byte_at_lt d1 2) in H by lia. cbn [obind] in H.
+  rewrite (slice_from_le d1) in H by lia. cbn [obind] in H.
+  set (d2 := skipn 3 d1) in *.
+  assert (Edata : data = firstn 4 data ++ nth 4 data 0%N :: nth 5 data 0%N :: firstn 32 (skipn 6 data) ++ nth 38 data 0%N ::
+                         firstn sidl (skipn 39 data) ++ nth 0 d1 0%N :: nth 1 d1 0%N :: nth 2 d1 0%N :: d2).
+  { rewrite <- (firstn_skipn 4 data) at 1. f_equal.
+    rewrite (skipn_cons_nth data 4) by lia. f_equal. rewrite (skipn_cons_nth data 5) by lia. f_equal.
+    etransitivity; [apply (split_skipn data 6 32)|]. f_equal. change (32 + 6) with 38.
+    rewrite (skipn_cons_nth data 38) by lia. f_equal.
+    etransitivity; [apply (split_skipn data 39 sidl)|]. f_equal. replace (sidl + 39) with (39 + sidl) by lia. fold d1.
+    etransitivity; [apply (cons_nth0 d1); lia|]. f_equal. rewrite (skipn_cons_nth d1 1) by lia. f_equal.
+    rewrite (skipn_cons_nth d1 2) by lia. reflexivity. }
+  rewrite Edata. constructor.
+  - rewrite firstn_length. lia.
+  - rewrite firstn_length, skipn_length. lia.
+  - rewrite firstn_length, skipn_length. fold sidl. lia.
+  - rewrite firstn_length, skipn_length. lia.
+  - clear Edata. clearbody d2. destruct d2 as [|y d2']; [left; reflexivity|]. right.
+    cbn iota in H. remember (y :: d2') as d2 eqn:Ed2.
+    assert (Hd2 : 1 <= length d2) by (rewrite Ed2; cbn; lia).
+    apply accepts_if_false in H. destruct H as [E7 H]. apply Nat.ltb_ge in E7.
+    rewrite (byte_at_lt d2 0) in H by lia. rewrite (byte_at_lt d2 1) in H by lia. cbn [obind] in H.
+    rewrite (slice_from_le d2) in H by lia. cbn [obind] in H.
+    apply accepts_if_false in H. destruct H as [E8 H]. apply negb_false_iff in E8. apply Nat.eqb_eq in E8.
+    exists (nth 0 d2 0%N), (nth 1 d2 0%N), (skipn 2 d2). split; [|split].
+    + etransitivity; [apply (cons_nth0 d2); lia|]. f_equal. rewrite (skipn_cons_nth d2 1) by lia. reflexivity.
+    + exact E8.
+    + apply (sh_ext_loop_accepts _ _ _ (Nat.lt_succ_diag_r _)) in H. exact H.
+Qed.
+
+Theorem serverHello_shape_accepts : forall data, sh_shape data -> accepts (serverHello_unmarshal data).
+Proof.
+  intros data H. destruct H as [hdr v0 v1 random sl sid s0 s1 cm ext Hh Hr Hsid Hsid32 Hext].
+  destruct hdr as [|h0 [|h1 [|h2 [|h3 [|]]]]]; try discriminate. clear Hh.
+  do 32 (destruct random as [|? random]; [discriminate|]). destruct random; [|discriminate]. clear Hr.
+  set (rest := s0 :: s1 :: cm :: ext).
+  cbn [app]. unfold serverHello_unmarshal.
+  match goal with |- context [Nat.ltb (length ?d) 42] => set (data := d) end.
+  assert (Hl : length data = 39 + length sid + length rest).
+  { unfold data. cbn [length]. rewrite app_length. lia. }
+  destruct (Nat.ltb_spec (length data) 42) as [Hlt|_].
+  { unfold rest in Hl. cbn [length] in Hl. lia. }
+  assert (B4 : byte_at data 4 = Ok v0) by reflexivity.
+  assert (B5 : byte_at data 5 = Ok v1) by reflexivity.
+  assert (B38 : byte_at data 38 = Ok sl) by reflexivity.
+  rewrite B4, B5. cbn [obind]. rewrite slice_ok by lia. cbn [obind]. rewrite B38. cbn [obind]. rewrite <- Hsid.
+  destruct (Nat.ltb_spec 32 (length sid)); [lia|]. cbn [orb].
+  destruct (Nat.ltb_spec (length data) (39 + length sid)); [lia|].
+  rewrite slice_ok by lia. cbn [obind]. rewrite slice_from_le by lia. cbn [obind].
+  assert (Ed1 : skipn (39 + length sid) data = rest).
+  { unfold data. cbn [Nat.add skipn]. apply skipn_app_exact. }
+  rewrite Ed1. unfold rest. cbn [length]. change (Nat.ltb (S (S (S (length ext)))) 3) with false. cbn iota.
+  cbn [byte_at nth_error obind slice_from length Nat.leb skipn].
+  destruct Hext as [->|[x0 [x1 [blk [-> [Hb Hok]]]]]]; [apply accepts_ok|].
+  cbn [length]. change (Nat.ltb (S (S (length blk))) 2) with false. cbn iota.
+  cbn [byte_at nth_error obind slice_from length Nat.leb skipn].
+  rewrite Hb. rewrite Nat.eqb_refl. cbn [negb]. rewrite <- Hb.
+  apply sh_ext_loop_accepts; [lia|exact Hok].
+Qed.
+
+Theorem serverHello_accepts_iff : forall data, accepts (serverHello_unmarshal data) <-> sh_shape data.
+Proof. intros. split; [apply serverHello_accepts_shape|apply serverHello_shape_accepts]. Qed.
